@@ -58,6 +58,8 @@ func main() {
 		os.Exit(cmdSelftest(os.Args[2:]))
 	case "replay":
 		os.Exit(cmdReplay(os.Args[2:]))
+	case "replayable":
+		os.Exit(cmdReplayable(os.Args[2:]))
 	case "dump":
 		os.Exit(cmdDump(os.Args[2:]))
 	}
@@ -111,6 +113,7 @@ func cmdFn(args []string) int {
 	mfile := fs.String("mfile", "", "mutate: file (relative to repo)")
 	mfind := fs.String("mfind", "", "mutate: text to find")
 	mrepl := fs.String("mrepl", "", "mutate: replacement")
+	doReplay := fs.Bool("replay", false, "try to replay failed obligations on the real code")
 	fs.Parse(args)
 	var overlay map[string][]byte
 	if *mfile != "" {
@@ -196,6 +199,10 @@ func cmdFn(args []string) int {
 				fmt.Printf("      %s\n", ob.Desc)
 				if ob.Result == "error" {
 					fmt.Printf("      %s\n", firstLines(ob.Output, 6))
+				}
+				if *doReplay && !ob.Cover {
+					rp, ok := replayObligation(g, *repo, *verif, "dev", ob, work)
+					fmt.Printf("      replay: reproduced=%v %s\n", ok, rp)
 				}
 			}
 		}
@@ -344,6 +351,7 @@ func cmdCheck(args []string) int {
 	}
 	known := loadKnown(*verif)
 	violations := 0
+	replayTried, replayDone, replayTotal := map[string]int{}, map[string]bool{}, 0
 	var knownHit []string
 	var vioNames []string
 	discharged, total, covers, coversOK := 0, 0, 0, 0
@@ -385,7 +393,18 @@ func cmdCheck(args []string) int {
 			continue
 		}
 		violations++
-		rp, reproduced := replayObligation(rr.g, *repo, *verif, *prop, ob, work)
+		// replay budget: at most 3 failed obligations per function, 8 per run, none once the function reproduced
+		g4r := rr.g
+		if replayTried[ob.Fn] >= 3 || replayDone[ob.Fn] || replayTotal >= 8 {
+			g4r = nil
+		} else {
+			replayTried[ob.Fn]++
+			replayTotal++
+		}
+		rp, reproduced := replayObligation(g4r, *repo, *verif, *prop, ob, work)
+		if reproduced {
+			replayDone[ob.Fn] = true
+		}
 		suffix := ""
 		if !reproduced {
 			suffix = " no-failing-input-found"
@@ -502,6 +521,7 @@ func writeEvidence(path string, cfg *PropConfig, tier string, seed int, obs []*O
 			"known_findings":           knownHit,
 			"violated_obligations":     vioNames,
 			"selftest":                 selftest,
+			"counterexample_replay":    replayEvidence(g, infos),
 		},
 	}
 	b, _ := json.MarshalIndent(ev, "", " ")
@@ -509,3 +529,37 @@ func writeEvidence(path string, cfg *PropConfig, tier string, seed int, obs []*O
 }
 
 func round3(f float64) float64 { return float64(int(f*1000+0.5)) / 1000 }
+
+// replayStats is filled by replayObligation during a run.
+var replayStats = struct {
+	Attempted  int
+	Reproduced []string
+}{}
+
+// replayEvidence: which functions under contract are in the class whose failed obligations are replayed on the
+// real code, and what this run replayed.
+func replayEvidence(g *Gen, infos []FuncInfo) map[string]any {
+	out := map[string]any{
+		"method":     "on a failed obligation: candidate input from the failing query (quantifiers instantiated over small indices / dropped), run on the real function by an in-package test injected with go test -overlay, contract evaluated on the observed run by the solver; reproduced only if the precondition is proved for the input and a postcondition is proved false for the input/output pair (or a side-effect-free function panics)",
+		"attempted":  replayStats.Attempted,
+		"reproduced": replayStats.Reproduced,
+	}
+	if g == nil {
+		return out
+	}
+	var yes []string
+	for _, in := range infos {
+		for n := range g.funcs {
+			if shortName(n) == in.Name {
+				if p, _ := g.planReplay(n); p != nil {
+					yes = append(yes, in.Name)
+				}
+				break
+			}
+		}
+	}
+	sort.Strings(yes)
+	out["replayable_functions"] = yes
+	out["replayable_of_under_contract"] = fmt.Sprintf("%d of %d", len(yes), len(infos))
+	return out
+}
